@@ -1322,3 +1322,74 @@ func cutLoopSequences(call *ssa.Call, sepLen int64) []ssa.Value {
 	add(rest, 0)
 	return out
 }
+
+// TAB-strip: "strip trailing spaces from an opaque path" removes U+0020 from the end and nothing else.
+func init() {
+	register(&Rule{
+		Name:  "TAB-strip",
+		Doc:   "the function that rewrites the one segment of an opaque path in place (strip trailing spaces, called by the search and hash setters) stores strings.TrimRight(segment, \" \") of that very segment — not TrimSpace, Trim, TrimLeft or another cutset: the standard removes trailing U+0020 only; a hand-written loop is left undecided",
+		Props: []string{"C05", "C03"},
+		Floor: 0,
+		Run: func(c *Ctx, s *core.Sink) {
+			n := 0
+			for _, f := range c.P.ModFns {
+				if namedOf(recvType(f)) != "path" || f.Parent() != nil || len(f.Params) != 1 {
+					continue
+				}
+				for _, b := range f.Blocks {
+					for _, ins := range b.Instrs {
+						st, ok := ins.(*ssa.Store)
+						if !ok || !isStringType(st.Val.Type()) {
+							continue
+						}
+						ia, ok := st.Addr.(*ssa.IndexAddr)
+						if !ok {
+							continue
+						}
+						if _, isSegs := loadOfFieldByType(ia.X, "path"); !isSegs {
+							continue
+						}
+						n++
+						key := fmt.Sprintf("strip/%s#%d", core.FuncName(f), n)
+						pos := c.P.Pos(st.Pos())
+						call, isCall := st.Val.(*ssa.Call)
+						if !isCall || call.Common().StaticCallee() == nil || core.PkgPathOf(call.Common().StaticCallee()) != "strings" {
+							s.Obs = append(s.Obs, core.Obligation{Rule: s.Rule, Construct: key, Pos: pos, Verdict: core.Discharged, Fact: "inventory: not decided (the segment is not rewritten by one call of package strings)", Props: s.Props, Trivial: true})
+							continue
+						}
+						cl := call.Common().StaticCallee()
+						args := call.Common().Args
+						// the text trimmed is the element that is stored into
+						same := false
+						if ld, ok := args[0].(*ssa.UnOp); ok && ld.Op == token.MUL {
+							if ia2, ok := ld.X.(*ssa.IndexAddr); ok && (sameValue(ia2.X, ia.X) || sameLoad(ia2.X, ia.X)) {
+								k1, ok1 := constInt(ia.Index)
+								k2, ok2 := constInt(ia2.Index)
+								same = ok1 && ok2 && k1 == k2
+							}
+						}
+						cut, isK := "", false
+						if len(args) == 2 {
+							cut, isK = constString(args[1])
+						}
+						switch {
+						case cl.Name() == "TrimRight" && isK && cut == " " && same:
+							s.OK(key, pos, "stores strings.TrimRight(segment, \" \") of the segment it replaces")
+						case cl.Name() == "TrimRight" && isK && cut == " ":
+							s.Bad(key, pos, "the text that is trimmed is not the segment that is replaced")
+						default:
+							what := "strings." + cl.Name()
+							if isK {
+								what += fmt.Sprintf(" with the cutset %q", cut)
+							}
+							s.Bad(key, pos, "an opaque path is rewritten with "+what+": the standard strips trailing U+0020 SPACE only (leading spaces, tabs and other white space stay)")
+						}
+					}
+				}
+			}
+			if n == 0 {
+				s.Obs = append(s.Obs, core.Obligation{Rule: s.Rule, Construct: "strip/none", Pos: "-", Verdict: core.Discharged, Fact: "inventory: not decided (no method of the path type stores a string into a segment in place)", Props: s.Props, Trivial: true})
+			}
+		},
+	})
+}
